@@ -12,6 +12,10 @@ for p in sorted(os.listdir(root)):
     d = os.path.join(root, p)
     if not os.path.isdir(d):
         continue
+    if os.path.exists(os.path.join(d, "patch.diff")):        # flat layout: /verif/seeded/C01-1/patch.diff
+        if not want or p in want or p.split("-")[0] in want:
+            seeds.append((p, d))
+        continue
     for k in sorted(os.listdir(d)):
         if os.path.exists(os.path.join(d, k, "patch.diff")):
             name = "%s-%s" % (p, k)
